@@ -564,10 +564,16 @@ def main():
     meta = ["corpus"] * len(corpus) + meta
     run.cov["distribution"] = dist
     t0 = time.time()
+    # the code-level models of toFixed/toExponential/toPrecision expand 768 / 1100 exact digits per case: every corpus line and
+    # every 4th generated line asks for them, the others ('~' prefix) for the specification answer only
+    mlines = []
+    for k, l in enumerate(lines):
+        heavy = l.startswith(("exp ", "prec ", "fixed "))
+        mlines.append("~" + l if heavy and meta[k] != "corpus" and k % 4 else l)
     try:
         with ThreadPoolExecutor(max_workers=2) as ex:
             fi = ex.submit(run_lines, numops, lines, workers)
-            fm = ex.submit(run_lines, MODEL_BIN, lines, workers) if model_ok else None
+            fm = ex.submit(run_lines, MODEL_BIN, mlines, workers) if model_ok else None
             impl = fi.result()
             model = fm.result() if fm else None
     except (subprocess.TimeoutExpired, OSError) as e:
@@ -595,7 +601,7 @@ def main():
         trivial = spec.startswith("T:RangeError") or verdict in ("open", "discard", "open-noroundtrip")
         run.count(line, nontrivial=not trivial)
         stats[op + ":" + verdict] += 1
-        if code != "-" and verdict in ("ok", "deviation", "latitude"):
+        if code != "-" and verdict in ("ok", "deviation"):
             agrees = code == impl[k]
             stats["code_model:" + ("agrees" if agrees else "differs")] += 1
             if not agrees and len(code_diffs) < 5:
@@ -611,17 +617,19 @@ def main():
                 deviations.setdefault(cls, []).append(case)
     run.cov["verdicts"] = dict(stats)
     if code_diffs:
-        # the code-level models of Code_C13.v describe the algorithms as they are on the unchanged tree; after a fix: they differ
+        # the code-level models of Deep_Code_C13.v transliterate the repaired hand-written algorithms: a difference means
+        # that the code no longer is what the ..._model_eq_spec theorems are about
         run.notes.append({"code_level_model_differs_from_impl": code_diffs})
     if spec_defects:
         run.notes.append({"model_defect_spec_cross_check": spec_defects})
         log("C13: %d case(s) where the Coq and Python specifications disagree (not judged)" % stats["spec_cross_check_mismatch"])
     # 5. search: the property's own oracle on the implementation alone
     found = []
-    nrt = 300000 if thorough or broken or unknown else 12000
-    nint = 150000 if thorough or broken or unknown else 8000
+    enlarged = bool(thorough or broken or unknown or code_diffs)
+    nrt = 300000 if enlarged else 12000
+    nint = 150000 if enlarged else 8000
     jobs = []
-    nj = 8 if (thorough or broken or unknown) else 4
+    nj = 8 if enlarged else 4
     for j in range(nj):
         jobs.append("sweep-rt %d %d" % ((run.seed * 31 + j) & 0x7fffffff, nrt // nj))
         jobs.append("sweep-int %d %d" % ((run.seed * 17 + j) & 0x7fffffff, nint // nj))
@@ -637,7 +645,7 @@ def main():
         else:
             found.append({"job": j, "result": o})
     # exact-arithmetic acceptance of the digit-generating methods on many more doubles (Python oracle, implementation only)
-    nsearch = 40000 if (thorough or broken or unknown) else 2500
+    nsearch = 40000 if enlarged else 2500
     sl = []
     for b in G.random_doubles(run.rng, nsearch // 4) + G.small_decimal_doubles(run.rng, nsearch // 8) + G.tie_doubles(run.rng, nsearch // 8):
         h = G.hx(b)
@@ -687,6 +695,14 @@ def main():
                        "how_to_rerun": "printf '%%s\\n' '%s' | harness/target/debug/numops" % c["line"][:500]})
     if withheld:
         run.cov["alarms_withheld_by_v8"] = withheld
+    if code_diffs and not run.violations:
+        c = code_diffs[0]
+        run.violation({"kind": "correspondence-broken", "input": c["line"], "model_output": c["code_model"], "impl_output": c["impl"],
+                       "spec_output": c["spec"], "cases": stats["code_model:differs"],
+                       "obligation": "code-level model of the hand-written digit algorithms (coq/C13/Deep_Code_C13.v, theorems *_model_eq_spec) = engine",
+                       "search": "the engine still agrees with the specification on every case of the enlarged search",
+                       "how_to_rerun": "printf '%%s\\n' '%s' | harness/target/debug/numops ; same line | ocaml/C13/_build/numdrv" % c["line"][:500]},
+                      found_input=False)
     if broken is not None and not run.violations and not run.known:
         run.violation({"kind": "proof-broken", "obligation": "coq/C13/Props_C13.v", "detail": broken,
                        "search": "enlarged round-trip / integer-radix sweeps and the generated correspondence found no failing input"},
